@@ -953,6 +953,12 @@ class Frame:
         info = f.env or {}
         if "__np_method__" in info:
             name = info["__np_method__"]
+            if name == "astype":
+                cp = kwargs.get("copy") if isinstance(kwargs, dict) else None
+                src_kw = next((k.value for k in getattr(e, "keywords", []) if k.arg == "copy"), None)
+                if isinstance(src_kw, ast.Constant) and src_kw.value is False:
+                    # astype(..., copy=False) returns the array itself when the dtype already matches
+                    return Arr(recv.owners)
             if name in ("copy", "astype", "tolist", "item", "sum", "min", "max", "mean", "dot",
                         "argmax", "argmin", "cumsum", "round", "clip", "nonzero", "any", "all",
                         "std", "prod", "flatten", "repeat", "take", "argsort"):
